@@ -8,11 +8,14 @@ import (
 	"encoding/json"
 	"fmt"
 	"io"
+	"os"
+	"path/filepath"
 	"sort"
 	"strings"
 	"time"
 
 	"github.com/jhalter/mobius/hotline"
+	"golang.org/x/text/encoding/charmap"
 
 	"verifharness/internal/core"
 	"verifharness/internal/fixture"
@@ -38,7 +41,7 @@ type args struct {
 
 var allTypes = []string{"transaction", "field", "user", "account", "filenamewithinfo", "infofork", "flatfile",
 	"fileheader", "filepath", "resumedata", "newsartlist", "newsartlistdata", "newscat", "tracker", "serverrecord",
-	"time", "handshake", "transfer", "decodeint", "newspath"}
+	"time", "handshake", "transfer", "decodeint", "newspath", "filelist"}
 
 func (prop) Plan(tier string, seed int64) []core.Batch {
 	n := 120
@@ -513,6 +516,10 @@ func generate(t string, r *core.Rand, n int, exh bool) []obj {
 	case "decodeint":
 		for i := 0; i < 40+n/4; i++ {
 			add(genDecodeInt(r, i))
+		}
+	case "filelist":
+		for i := 0; i < 12+n/10; i++ {
+			add(genFileList(r, i))
 		}
 	case "newspath":
 		var cs [][]int
@@ -1166,4 +1173,75 @@ func genNewsPath(r *core.Rand, lens []int) obj {
 			return ""
 		},
 	}
+}
+
+// genFileList: the list records as the real listing function emits them for a directory whose names need the
+// Mac-Roman conversion; every record must decode strictly (name length = bytes that follow) to the converted name.
+func genFileList(r *core.Rand, i int) obj {
+	dir, _ := os.MkdirTemp(core.ScratchDir(), "c01list-")
+	pool := []string{"café.txt", "über ™ grüße", "naïve.sit", "plain.txt", "Ærø", "π-notes", "ƒolder", "x", "résumé final.pdf", "©opy", "a–b—c", "ÿ.zip"}
+	want := map[string]int{}
+	k := 1 + r.Intn(6)
+	for j := 0; j < k; j++ {
+		name := core.Pick(r, pool)
+		if r.Bool() {
+			name = fmt.Sprintf("%d %s", j, name)
+		}
+		if _, dup := want[name]; dup {
+			continue
+		}
+		sz := r.Intn(3000)
+		if r.Chance(1, 4) {
+			os.MkdirAll(filepath.Join(dir, name), 0755)
+			want[name] = -1
+		} else {
+			os.WriteFile(filepath.Join(dir, name), r.Bytes(sz), 0644)
+			want[name] = sz
+		}
+	}
+	return obj{
+		desc: fmt.Sprintf("file list of a directory with %d entries %v", len(want), keysOf(want)), lclass: fmt.Sprintf("n%d", len(want)), ref: nil, nontriv: true,
+		decode: func() string {
+			defer os.RemoveAll(dir)
+			fields, err := hotline.GetFileNameList(dir, []string{`^\.`})
+			if err != nil {
+				return "GetFileNameList: " + err.Error()
+			}
+			if len(fields) != len(want) {
+				return fmt.Sprintf("%d records for %d entries", len(fields), len(want))
+			}
+			for _, f := range fields {
+				fe, err := rc.DecodeFileEntry(f.Data)
+				if err != nil {
+					return fmt.Sprintf("list record %x does not decode: %v", f.Data, err)
+				}
+				disk := macToUTF8(fe.Name)
+				sz, ok := want[disk]
+				if !ok {
+					return fmt.Sprintf("record name %q (UTF-8 %q) is not an entry of the directory", fe.Name, disk)
+				}
+				if sz >= 0 && int(fe.Size) != sz {
+					return fmt.Sprintf("record %q announces size %d, file has %d", disk, fe.Size, sz)
+				}
+				if sz < 0 && string(fe.Type[:]) != "fldr" {
+					return fmt.Sprintf("folder %q listed with type %q", disk, fe.Type)
+				}
+			}
+			return ""
+		},
+	}
+}
+
+func keysOf(m map[string]int) []string {
+	var ks []string
+	for k := range m {
+		ks = append(ks, k)
+	}
+	sort.Strings(ks)
+	return ks
+}
+
+func macToUTF8(b []byte) string {
+	s, _ := charmap.Macintosh.NewDecoder().Bytes(b)
+	return string(s)
 }
